@@ -11,6 +11,7 @@ import (
 	"sort"
 	"strconv"
 	"strings"
+	"time"
 	"unicode/utf8"
 
 	"github.com/go-faster/city"
@@ -40,6 +41,7 @@ type LCase struct {
 	ParserOK bool              `json:"parser_doc_ok"` // every parser's stored document = encodeLabels(sanitizeLabels(labels as sent))
 	Ch       [][2]string       `json:"ch"`            // (hex string, CH64 decimal)
 	Print    [][2]int64        `json:"print"`         // (rune, 0/1) for runes > 0xFF
+	Influx   string            `json:"influx"` // "" not applicable | "ok" | description of the disagreement
 	GoValid  bool              `json:"go_valid"`      // json.Valid(doc) && utf8.Valid(doc)
 	GoEqual  bool              `json:"go_equal"`      // ... and its members, in order, are exactly the sanitized pairs
 	Panic    string            `json:"panic,omitempty"`
@@ -52,6 +54,45 @@ func (freshCache) CheckAndSet(uint64) bool              { return false }
 func (freshCache) DB(string) numbercache.ICache[uint64] { return freshCache{} }
 
 var identRe = regexp.MustCompile(`^[a-zA-Z_][a-zA-Z0-9_]*$`)
+var influxValRe = regexp.MustCompile(`^[A-Za-z0-9_./:%-]+$`)
+
+// influxOK: tags travel through a Go map (random order); the fingerprint must be that of
+// sanitizeLabels(("measurement", m) :: tags) whatever the order
+func influxCheck(raw [][]string) string {
+	for _, kv := range raw {
+		if !identRe.MatchString(kv[0]) || kv[0] == "measurement" || !influxValRe.MatchString(kv[1]) {
+			return ""
+		}
+	}
+	line := "m"
+	for _, kv := range raw {
+		line += "," + kv[0] + "=" + kv[1]
+	}
+	line += " message=\"x\" 1704888000000000000\n"
+	want := unmarshal.VerifC04FingerprintLabels(unmarshal.VerifC04SanitizeLabels(append([][]string{{"measurement", "m"}}, copyLabels(raw)...)))
+	for k := 0; k < 3; k++ {
+		ctx := context.WithValue(context.Background(), "precision", time.Nanosecond)
+		ch := unmarshal.UnmarshalInfluxDBLogsV2(ctx, io.Reader(bytes.NewReader([]byte(line))), freshCache{})
+		got, seen := uint64(0), false
+		var perr error
+		for resp := range ch {
+			if resp.Error != nil {
+				perr = resp.Error
+				continue
+			}
+			if spl, ok := resp.SamplesRequest.(*wmodel.TimeSamplesData); ok && spl != nil && len(spl.MFingerprint) > 0 {
+				got, seen = spl.MFingerprint[0], true
+			}
+		}
+		if perr != nil {
+			return "parser error: " + perr.Error()
+		}
+		if !seen || got != want {
+			return fmt.Sprintf("fingerprint %d through the Influx parser, %d for sanitizeLabels(measurement :: tags)", got, want)
+		}
+	}
+	return "ok"
+}
 
 const alpha = "abcdefghijklmnopqrstuvwxyzABCDEFGHIJKLMNOPQRSTUVWXYZ_"
 const alnum = alpha + "0123456789"
@@ -369,6 +410,9 @@ func observe(r *rand.Rand, c *LCase, raw [][]string) {
 				c.Skipped["json_labels"] = "names are not identifiers of the labels syntax"
 				c.Skipped["loki_proto"] = "names are not identifiers of the labels syntax"
 			}
+		}
+		if len(raw) > 0 {
+			c.Influx = influxCheck(raw)
 		}
 		// oracle tables
 		seen := map[string]bool{}
